@@ -16,8 +16,9 @@ TRUSTED = ["the evaluator around the scope layer (parsing of @use/@forward, vari
            "modelled; it is tied by comparing every probe's outcome with the model",
            "the oracle for a probe is the spec instance of the Lean model (the property's statement made executable)"]
 ASSUMPTIONS = ["values are abstract numbers; each module member is declared once",
-               "`with` of a variable the module declares without !default is modelled as the code behaves (value ignored, "
-               "no error) in both model instances: the statement does not say it must be an error (dart-sass makes it one)",
+               "`with` of a variable the module declares only without !default is an error in the spec instance (the statement: "
+               "`with` sets only variables declared with !default; since fix 17cd11e the code reports it); under the "
+               "withUnknown* flags (code before the fix) it is accepted and the value ignored",
                "show/hide names are matched against the prefixed names (Sass module-system spec)",
                "private members (leading - or _) and `with` on a forwarding `@use` are not generated"]
 CASE_TIMEOUT = 60
